@@ -182,10 +182,19 @@ def r09_5(prog: Program, rep):
     rm = _remove_calls(g)
     acq = [i for i, n in g.nodes.items() if n.kind == "with_enter"
            and is_gitfile_call(prog, m, n.ast.items[n.info].context_expr)]
-    if not acq:
-        raise AnalysisError("add_packed_refs: packed-refs lock (with GitFile) not found")
-    ws = g.nodes[acq[0]].ast
-    commit = [i for i, n in g.nodes.items() if n.kind == "with_exit_ok" and n.ast is ws]
+    if acq:
+        ws = g.nodes[acq[0]].ast
+        commit = [i for i, n in g.nodes.items() if n.kind == "with_exit_ok" and n.ast is ws]
+    else:
+        # the explicit form: h = GitFile(.., "wb") ... h.close() commits
+        hs = [n.ast.targets[0].id for n in g.nodes.values() if n.kind == "stmt" and isinstance(n.ast, ast.Assign) and isinstance(n.ast.targets[0], ast.Name)
+              and is_gitfile_call(prog, m, n.ast.value) and "w" in (gitfile_mode(n.ast.value) or "")]
+        if not hs:
+            raise AnalysisError("add_packed_refs: packed-refs lock (GitFile(.., 'wb')) not found")
+        commit = [i for i, n in g.nodes.items() for c in node_calls(n) if isinstance(c.func, ast.Attribute) and c.func.attr == "close"
+                  and isinstance(c.func.value, ast.Name) and c.func.value.id in hs]
+        if not commit:
+            raise AnalysisError("add_packed_refs: commit (close) of the packed-refs lock not found")
     never_before(rep, "R09.5", g, f, rm, commit, "no loose ref removed before the new packed-refs is committed",
                  "loose refs are removed while the new packed-refs is still only a lock file: a crash or a failing "
                  "write in between loses the refs")
